@@ -1,0 +1,18 @@
+//go:build verif
+
+// Verification hook of property C13 (add-only; compiled with -tags verif only): what a cached
+// *rxCompiled holds.
+package operators
+
+// VerifC13RxCompiled reports, for a value cached by newRX, the source of the compiled regexp
+// and whether any prefilter artefact (minLen, prefilter function, exact-match literal) is set.
+func VerifC13RxCompiled(v any) (re string, prefilterArtefacts bool, ok bool) {
+	c, ok := v.(*rxCompiled)
+	if !ok || c == nil || c.re == nil {
+		return "", false, false
+	}
+	return c.re.String(), c.minLen != 0 || c.prefilter != nil || c.exactMatch != "", true
+}
+
+// VerifC13MultilineOff reports the build-time default of @rx (true: "(?s)", false: "(?sm)").
+func VerifC13MultilineOff() bool { return shouldNotUseMultilineRegexesOperatorByDefault }
